@@ -231,5 +231,16 @@ def update (s : Session) (cfg : Create.Cfg) (fs : List Feature) : Py Session := 
     pure { s with db := Create.finalize (Create.updateRelationsGff db) cfg.dialect [] auto, auto := auto }
   else .error .value
 
+/-- `FeatureDB.update(data, transform=…)` as the caller sees it: "no features" is tested on the RAW input
+(`if not data._peek: return self`, before any transform runs), so an input whose features are all dropped
+by the transform is not a no-op - the importer starts and finds nothing (`EmptyInputError` from the GFF
+importer, `ValueError` from the GTF one).  `fs` are the features after the transform. -/
+def updateRaw (s : Session) (cfg : Create.Cfg) (rawEmpty : Bool) (fs : List Feature) : Py Session :=
+  if rawEmpty then .ok s
+  else if fs.isEmpty then
+    (if s.dialect.fmt = Parser.gtf then .error .value
+     else if s.dialect.fmt = Parser.gff3 then .error .emptyInput else .error .value)
+  else update s cfg fs
+
 end Interface
 end GffModel
